@@ -49,5 +49,9 @@ Report == (Accepted /\ seq \notin ImplSet[c]) => PrintT(<<"MISSING", c, seq>>)
 \* soundness of the pruning rule, checked with VERIF_PRUNE=0: a valid sequence has only viable prefixes
 PruneSound == Accepted => \A n \in 1..Len(seq) : PrefixOK(FN[c], NB[c], SubSeq(seq, 1, n))
 
+\* simulation mode (large designs): every accepted behaviour reached by a random walk is printed; the harness asks the
+\* implementation whether its compiled formula accepts exactly that sequence (is_cnf_still_sat with the sequence pinned)
+ReportValid == Accepted => PrintT(<<"SIM", c, seq>>)
+
 Depth == TLCGet("level") <= 60
 =============================================================================
